@@ -72,5 +72,11 @@ add("C19", "TestC19", "exploration",
     "Generated-input search: String() must not panic, must render every node id exactly once, its leaf lines top to bottom must carry the retained values in key order, and a reloaded trie must render identically.",
     "Trusted: the rendering grammar of openacid/low/tree (#id, =value). Label text is not asserted.", RAPID, "DESIGN.md §4 C19")
 
+add("C04", "TestC04", "exploration",
+    dict(cases=2000, shards=4), dict(cases=60000, shards=16, timeout_s=3000),
+    "Complete tries (fresh, reloaded, loaded from generated 0.5.10/0.5.11 allpref streams; all encoders incl. String16) x drawn scans (API ScanFrom/ScanFromTo/NewIter, start and end from Q(keys) or drawn, both inclusivities, with/without values, callback stop point) + a sweep with every string of Q(keys) as start + full scans; refusal clause: every non-Complete effective mode x dedup x with/without values (12 classes, counted); non-trivial = a scan that yields >= 3 entries from an absent or exclusive start on a trie with a stored inner prefix or a 257-bit node (refusal: >= 2 keys and >= 1 step)",
+    "Generated-input search: each scan must yield exactly the model's slice of retained entries (keys bytewise, each once, ascending, value bytes equal to the independent reference encoding, nil when not requested/supplied), invoke the callback exactly once per entry, stop at the stop point, and report exhaustion on 3 further calls. On a non-Complete trie a scan must panic before yielding anything, or yield exactly the model's answer (possible only when the trie happens to hold complete keys).",
+    "Trusted: reference model, reference value encodings, legacy 0.5.10 writer (validated against the archive).", RAPID, "DESIGN.md §4 C04")
+
 json.dump(T, open("props.json", "w"), indent=1, sort_keys=True)
 print(len(T), "properties")
